@@ -99,6 +99,17 @@ def run(ctx):
                         a=dict(writes=[], shutdown=True, rcvbuf=rb, read_start_ms=600), b=dict(writes=[tot], shutdown=True)))
         scs.append(dict(v=4, mtu=1500, sack=True, cc='', deadline_ms=45000, seed=k + 1, flags={}, tag='big-then-halfclose-%d' % k,
                         a=dict(writes=[tot], shutdown=True), b=dict(writes=[], shutdown=True, rcvbuf=rb, read_start_ms=600)))
+    # ---- paced writes (less than one RTO apart, each acknowledged before the next) with a tail loss: recovery depends on the
+    #      retransmission timer after it has been stopped and re-armed several times; also the FIN as the lost tail
+    for k in range(ctx.pick(6, 24)):
+        n = rng.choice([2, 3, 4, 5])
+        gap = [40, 80, 120, 60, 150, 30][k % 6] * 1000
+        fin_lost = (k % 3 == 2)
+        rules = [dict(kind='fin', nth=1, act='drop')] if fin_lost else [dict(kind='data', nth=n - (k % 2 if n > 2 else 0), act='drop')]
+        scs.append(dict(v=4 if k % 4 else 6, mtu=576, sack=(k % 2 == 0), cc='', deadline_ms=45000, seed=k + 1, flags={},
+                        tag='paced-tail-%d-n%d-gap%dms-%s' % (k, n, gap // 1000, 'fin' if fin_lost else 'data'),
+                        a=dict(writes=[rng.choice([100, 400, 500])] * n, write_gap_us=gap, shutdown=True),
+                        b=dict(writes=[rng.choice([0, 200])] if k % 2 else [], shutdown=True), a2b=dict(rules=rules)))
     # ---- the replay script of known finding F1: every window-bearing pure ACK of the receiver is lost after the window closed
     scs.append(dict(v=4, mtu=1500, sack=True, cc='', deadline_ms=30000, seed=1, flags={}, tag='f1-replay',
                     a=dict(writes=[20000], shutdown=True), b=dict(writes=[], shutdown=True, rcvbuf=2000, read_start_ms=1500),
